@@ -3,4 +3,6 @@ NEXT TNext
 CONSTANTS
   MaxStmts = 1
   MaxDepth = 1
+  UseY = FALSE
+  Cats = {}
 CHECK_DEADLOCK FALSE
